@@ -11,7 +11,7 @@ from .interp import Spec, PyRaise
 
 class Harness:
     def __init__(self, name, fn, spec=None, functions=(), covers=(), max_paths=20000, expect_fail=False,
-                 timeout_ms=10000):
+                 timeout_ms=10000, finalize=None, retry_unknown=True):
         self.name = name
         self.fn = fn                    # fn(vm) ; uses vm.ctx
         self.spec = spec or Spec()
@@ -20,6 +20,8 @@ class Harness:
         self.max_paths = max_paths
         self.expect_fail = expect_fail  # canary
         self.timeout_ms = timeout_ms
+        self.retry_unknown = retry_unknown
+        self.finalize = finalize        # fn(list of finished ctxs) -> list of Check  (obligations that span paths)
 
 
 class HarnessResult:
@@ -79,12 +81,14 @@ def run_harness(h: Harness) -> HarnessResult:
         ctx.nonvacuous = ctx._check() != z3.unsat
 
     try:
-        done, stats = explore(body, max_paths=h.max_paths, timeout_ms=h.timeout_ms)
+        done, stats = explore(body, max_paths=h.max_paths, timeout_ms=h.timeout_ms, retry_unknown=h.retry_unknown)
         for c in done:
             res.checks.extend(c.checks)
             res.covers |= c.covers
             if getattr(c, "nonvacuous", False):
                 res.nonvacuous_paths += 1
+        if h.finalize is not None:
+            res.checks.extend(h.finalize([c for c in done if getattr(c, "end", "") != "infeasible"]))
         res.paths = stats.paths
         res.cut = stats.cut_paths
         res.infeasible = stats.infeasible
